@@ -35,13 +35,17 @@ def nodeWeight (k : List Rat) (knew : Rat) : Nat × Rat :=
 
 def sumList (l : List Rat) : Rat := l.foldl (· + ·) 0
 
+/-- the four weights of `_interpolate_bilinear`: `wcol[0,1] = uw; wcol[0,0] = 1 - uw; wcol[1] = wcol[0] * vw; wcol[0] -= wcol[1]` -/
+def blend (x00 x01 x10 x11 uw vw : Rat) : Rat :=
+  x00 * ((1 - uw) - (1 - uw) * vw) + x01 * (uw - uw * vw) + x10 * ((1 - uw) * vw) + x11 * (uw * vw)
+
 /-- `_interpolate_bilinear` on a row-major flat `H × W` table -/
 def bilinear (H W : Nat) (x : List Rat) (vs us : List (Nat × Rat)) : List Rat :=
   vs.flatMap fun (v, vw) => us.map fun (u, uw) =>
     let v1 := min (v + 1) (H - 1)
     let u1 := min (u + 1) (W - 1)
     let at_ (i j : Nat) : Rat := x.getD (i * W + j) 0
-    at_ v u * ((1 - uw) - (1 - uw) * vw) + at_ v u1 * (uw - uw * vw) + at_ v1 u * ((1 - uw) * vw) + at_ v1 u1 * (uw * vw)
+    blend (at_ v u) (at_ v u1) (at_ v1 u) (at_ v1 u1) uw vw
 
 /-- sum-preserving rescale (generated term and guard) -/
 def rescale (new : List Rat) (oldSum : Rat) : List Rat :=
